@@ -139,6 +139,16 @@ def c08(rec):
 def c16(rec):
     out = []
     k, v = opk(rec)
+    if k == "init" and rec["ok"]:
+        # the free name handed out by Init is a registration too: it must not land on a live name
+        pre, post = rec["pre"], rec["post"]
+        acc = canon_of(pre)
+        for key, w in d(pre["names"]).items():
+            w1 = d(post["names"]).get(key)
+            if rec["h"] <= w["expires"] and w1 is not None and acc(w1["value"]) != acc(w["value"]):
+                out.append({"sig": {"prop": "C16", "kind": "live-name-taken-by-init"},
+                            "what": f"init by {v['creator']} took over the live name {key} (owner {w['value']}, expires {w['expires']}, h={rec['h']})"})
+        return out
     if k != "register":
         return out
     pre, post = rec["pre"], rec["post"]
